@@ -8,6 +8,7 @@ import AcryoVerif.Model.Landscape
 import AcryoVerif.Model.Split
 import AcryoVerif.Model.Fsc
 import AcryoVerif.Model.Bin
+import AcryoVerif.Model.Table
 
 /-! Dispatch of hand-written model operations for the line-protocol driver. -/
 namespace Model
@@ -151,6 +152,59 @@ def opBin (a : Array Rat) : String :=
   let o := binImage img (i a 0)
   s!"{o.n0} {o.n1} {o.n2} | " ++ " ".intercalate (o.data.toList.map Canon.canon)
 
+/-! `table n  op nargs args...  op nargs args...` : a history of table operations on the table
+whose rows carry the tags `0..n-1` (position, orientation and features each hold the row tag). After
+every operation the three containers are printed if they agree. -/
+abbrev TTab := Tab Nat Nat Nat
+
+def tabOfTags (l : List Nat) : TTab := ⟨l, l, l⟩
+
+def showTab (t : TTab) : String :=
+  if t.pos = t.rot ∧ t.rot = t.feat then "[" ++ ",".intercalate (t.pos.map toString) ++ "]"
+  else "MISALIGNED"
+
+def tagKey (mul modp : Int) (r : Nat × Nat × Nat) : Int := ((r.1 : Int) * mul) % modp
+
+def showGroups (gs : List (Int × TTab)) : String :=
+  "G " ++ " ".intercalate (gs.map fun g => toString g.1 ++ ":" ++ showTab g.2)
+
+def bitsOf (len : Nat) (n : Nat) : List Bool := (List.range len).map fun k => (n >>> k) % 2 == 1
+
+partial def runTable (t : TTab) (a : List Rat) (acc : List String) : List String :=
+  match a with
+  | [] => acc.reverse
+  | op :: nargs :: rest =>
+    let k := nargs.floor.toNat
+    let args := (rest.take k).map (·.floor)
+    let rest' := rest.drop k
+    let natArg (j : Nat) : Nat := (args.getD j 0).toNat
+    let intArg (j : Nat) : Int := args.getD j 0
+    let ret (r : PyM TTab) : TTab × String :=
+      match r with
+      | .ok u => (u, showTab u)
+      | .error e => (t, "err:" ++ toString e)
+    let (t', out) : TTab × String :=
+      match op.floor with
+      | 1 => ret (t.subsetInt (intArg 0))
+      | 2 => ret (pure (t.subsetSlice (intArg 0) (intArg 1)))
+      | 3 => ret (t.subsetMask (bitsOf (natArg 0) (natArg 1)))
+      | 4 => ret (pure (t.head (natArg 0)))
+      | 5 => ret (pure (t.tail (natArg 0)))
+      | 6 => ret (pure (t.filter fun r => ((r.1 : Int) % (intArg 0)) == intArg 1))
+      | 7 => ret (pure (t.sort (tagKey (intArg 0) (intArg 1)) (intArg 2 != 0)))
+      | 8 => ret (pure (t.concatWith (tabOfTags ((List.range (natArg 1)).map (· + natArg 0)))))
+      | 9 => ret (pure (t.concatWith (tabOfTags ((List.range (natArg 1)).map (· + natArg 0)))))
+      | 10 => (t, showGroups (t.groupBy fun r => (r.1 : Int) % (intArg 0)))
+      | 11 => ret (t.subsetIdx (args.map (·.toNat)))
+      | 12 => (t, showGroups (t.groupBy fun r => Tab.cutLabel (args.map fun (e : Int) => ((e : Int) : Rat)) ((r.1 : Nat) : Rat)))
+      | _ => (t, "bad-op")
+    runTable t' rest' (out :: acc)
+  | _ => (("bad-args") :: acc).reverse
+
+def opTable (a : Array Rat) : String :=
+  let n := (i a 0).toNat
+  " ; ".intercalate (runTable (tabOfTags (List.range n)) (a.toList.drop 1) [])
+
 def dispatch (name : String) (a : Array Rat) : Option String :=
   match name with
   | "prepAffine" => some (flat (opPrepAffine a))
@@ -177,6 +231,7 @@ def dispatch (name : String) (a : Array Rat) : Option String :=
   | "split" => some (opSplit a)
   | "fscLabels" => some (opFscLabels a)
   | "bin" => some (opBin a)
+  | "table" => some (opTable a)
   | _ => none
 
 end Model
